@@ -1,0 +1,28 @@
+//go:build verif
+
+// Contracts for the exovc verifier (/verif). Comment-only: with the tag off this file is not part
+// of the package, with the tag on it declares nothing.
+package assets
+
+// C10: deposit / withdraw / client-chain and token registration take effect only when the precompile is
+// invoked by the configured gateway contract; otherwise the call fails and nothing changes.
+
+//@ func (Precompile).DepositOrWithdraw
+//@   requires contract != nil
+//@   modifies state(ctx)
+//@   ensures[C10.pa.dow.gateway] !old(gatewayOK(ctx, contract.CallerAddress)) ==> err != nil && state(ctx) == old(state(ctx))
+
+//@ func (Precompile).RegisterOrUpdateClientChain
+//@   requires contract != nil
+//@   modifies state(ctx)
+//@   ensures[C10.pa.rcc.gateway] !old(gatewayOK(ctx, contract.CallerAddress)) ==> err != nil && state(ctx) == old(state(ctx))
+
+//@ func (Precompile).RegisterToken
+//@   requires contract != nil
+//@   modifies state(ctx)
+//@   ensures[C10.pa.rt.gateway] !old(gatewayOK(ctx, contract.CallerAddress)) ==> err != nil && state(ctx) == old(state(ctx))
+
+//@ func (Precompile).UpdateToken
+//@   requires contract != nil
+//@   modifies state(ctx)
+//@   ensures[C10.pa.ut.gateway] !old(gatewayOK(ctx, contract.CallerAddress)) ==> err != nil && state(ctx) == old(state(ctx))
